@@ -62,6 +62,7 @@ def alphabet(cfg: dict) -> list:
         ["line", [1, 255, 3, 0, 40, ""]],
         ["line", [9, 3, 1, 0, 2, "v"]],
         ["line", [1, 255, 4, 0, 0, "fw"]],
+        ["send", [1, 3, 1, 0, 2, "w"]],  # the application sends a set (parked if node 1 is sleeping: C07)
     ]
     if v is None:
         evs.append(["line", [0, 255, 3, 0, 2, cfg["reply"]]])
@@ -92,6 +93,7 @@ class Monitor:
         freeze(self.tz, self.t)
         self.s = Session(self.v, Config(metric=self.metric))
         self.model = R.RegistryModel()
+        self.parked: list[str] = []
         self.nontrivial = False
         self.last_desc = None
         self._alpha = alphabet(cfg)
@@ -114,6 +116,16 @@ class Monitor:
                 node.reboot = True
             self.last_desc = {"reboot": ev[1], "applied": node is not None}
             self.nontrivial = False
+            return viols
+        if ev[0] == "send":
+            from aiomysensors.model.message import Message
+
+            out = s.send(Message(*ev[1]))
+            self.last_desc = out.describe()
+            self.nontrivial = False
+            line = R.enc(*ev[1])
+            if out.kind == "return" and not out.writes:
+                self.parked = [l for l in self.parked if l.split(";")[:5] != line.split(";")[:5]] + [line]
             return viols
         f = tuple(ev[1])
         n, c, cmd, ack, t, p = f
@@ -162,6 +174,11 @@ class Monitor:
                 self.v = sp
         if version_unknown_before and not made_known and not (cmd == 3 and t in (R.I_LOG_MESSAGE, R.I_GATEWAY_READY)):
             must[R.enc(0, 255, 3, 0, 2, "")] += 1
+        # parked application commands released at a wake belong to C07; accept (and forget) them
+        for w in out.writes:
+            if w in self.parked:
+                may[w] += 1
+        self.parked = [l for l in self.parked if l not in out.writes]
         got = Counter(norm(w) for w in out.writes if not is_req19(w))
         self.nontrivial = bool(must)
         missing = must - got
@@ -187,7 +204,7 @@ class Monitor:
         shape = tuple(
             sorted((n, tuple(sorted((c, tuple(sorted(d["values"].items()))) for c, d in nd["children"].items()))) for n, nd in self.model.nodes.items())
         )
-        return (canon_gateway(self.s.gateway), shape, self.v)
+        return (canon_gateway(self.s.gateway), shape, self.v, tuple(self.parked))
 
 
 def make(cfg):
@@ -209,6 +226,14 @@ def run(ctx: core.Ctx) -> core.Report:
                 cfgs.append({"version": v, "metric": metric, "tz": "IST-5:30", "t": T_WINTER, "reply": "2.2.0" if metric else "1.5.1"})
         cfgs.append({"version": None, "metric": False, "tz": "PST8", "t": T_SUMMER, "reply": "2.0.0"})
     res = bfs.search(ctx, MOD, cfgs, max_depth=depth)
+    # deeper states: start from a node with a child and a stored value (three set-up messages)
+    base3 = [["line", [1, 255, 0, 0, 17, "2.0"]], ["line", [1, 3, 0, 0, 3, ""]], ["line", [1, 3, 1, 0, 2, "v"]]]
+    pcfgs = [{"version": v, "metric": True, "tz": "IST-5:30", "t": T_SUMMER, "reply": "2.2.0", "prefix": base3} for v in ([None, "2.1", "2.2"] if ctx.quick else versions)]
+    pres = bfs.search(ctx, MOD, pcfgs, max_depth=depth - 1)
+    for k in ("states", "transitions", "nontrivial_transitions"):
+        res[k] += pres[k]
+    res["per_cfg"] += pres["per_cfg"]
+    res["violations"] += pres["violations"]
     # single-step grid: time zones x instants x versions x metric (time and config replies)
     grid = []
     for v in versions:
@@ -239,7 +264,7 @@ def run(ctx: core.Ctx) -> core.Report:
         violations=viols,
         assumptions=[
             "time.localtime/time.time frozen to two instants; expected reply computed arithmetically from the POSIX TZ rule",
-            "presentation requests (C10) filtered by form; no application sends occur, so wakes must write nothing",
+            "presentation requests (C10) filtered by form; the only application send is one set command, whose release at a wake (C07) is accepted",
             "reboot flag read from the public Node.reboot attribute before the step",
         ],
     )
